@@ -226,6 +226,42 @@ def bfs(c, item):
     c.nontrivial(str(shape))
 
 
+def big_partition(c, item):
+    """slots that hold many occurrences (50..400 of one reaction, on an advanced ring): every coin pattern of a small menu; the
+    parts are whole, non-negative, add up slot by slot, and the first part holds exactly the number of coins that came up heads"""
+    from bioscrape.simulator import ArrayDelayQueue
+    n_occ, pattern, adv = item
+    c.count('states'); c.count('traces'); c.count('evaluations'); c.count('transitions')
+    q = ArrayDelayQueue(np.zeros((2, 4)), 0.5, 0.0)
+    for _ in range(adv):
+        q.py_advance_time()
+    t1 = q.py_get_next_queue_time() + 0.5
+    q.py_add_reaction(t1, 1, float(n_occ))
+    q.py_add_reaction(t1 + 1.0, 0, 3.0)
+    p = 0.3
+    coins = {'heads': [1] * (n_occ + 3), 'tails': [0] * (n_occ + 3), 'alternate': [i % 2 for i in range(n_occ + 3)],
+             'first-third': [1 if i < (n_occ + 3) // 3 else 0 for i in range(n_occ + 3)]}[pattern]
+    script = [p / 2 if b_ else (1 + p) / 2 for b_ in coins]
+    before, _ = drain(q.py_copy(), 2, 4)
+    with Stream(script) as st:
+        parts = q.py_binomial_partition(p)
+    case = dict(big_partition=[n_occ, pattern, adv])
+    if st.consumed != n_occ + 3 or st.overrun:
+        c.violation('C20/part/coins', 'partition of %d pending occurrences used %d(+%d) coins' % (n_occ + 3, st.consumed, st.overrun), case)
+        return
+    v1, _ = drain(parts[0].py_copy(), 2, 4)
+    v2, _ = drain(parts[1].py_copy(), 2, 4)
+    tot = [[a + b for a, b in zip(s1, s2)] for s1, s2 in zip(v1, v2)]
+    if tot != before:
+        c.violation('C20/part/conservation', 'parts %s + %s do not add up to %s' % (v1, v2, before), case)
+    elif any(min(s_) < 0 or any(v_ != int(v_) for v_ in s_) for s_ in v1 + v2):
+        c.violation('C20/part/negative', 'a part holds a negative or fractional count: %s %s' % (v1, v2), case)
+    elif sum(map(sum, v1)) != sum(coins):
+        c.violation('C20/part/count', 'first part holds %s occurrences, %d coins came up heads' % (sum(map(sum, v1)), sum(coins)), case)
+    else:
+        c.nontrivial(('big-partition', n_occ, pattern, adv))
+
+
 def shapes(tier):
     out = []
     for nr in (1, 2):
@@ -251,14 +287,18 @@ def run(ctx):
     ctx.rule = ('E3: explicit-state BFS on the real ArrayDelayQueue for every shape (1..2 reactions, 2..4 slots, dt in {0.25,0.5,1}, start '
                 'time in {0,2.5,-1}, constructed or re-timed; plus other shapes, among them more reactions than slots (3 reactions x 5 slots, 2 x 7, 3 x 2, 4 x 3; thorough also 4 x 6, 3 x 9, 5 x 3, 6 x 4) to a length 1-2 shorter); operations add(r, time) with time 2 and 0.3 slots in the past, on every '
                 'slot, 0.3 dt before/after every slot, 1 and 3 slots, 2^32 slots and infinitely far beyond the horizon; read-and-advance; copy; clear_copy; set_current_time (same, later, earlier) on the queue as it stands; '
-                'binomial_partition with every coin sequence (continuing on either part). After every transition the real queue is '
+                'binomial_partition with every coin sequence (continuing on either part); separately, partitions of slots holding 50..400 (thorough 1000) occurrences under four coin patterns. After every transition the real queue is '
                 'drained and compared slot by slot (content and slot times) with the reference. States are merged on (pending counts '
                 'per relative slot and reaction, ring position); every shape counts as one non-trivial case.')
     ctx.assumptions = ['requested times are never exactly half-way between slots', 'at most %d pending occurrences at a time' % cap]
+    bigs = [(n_, pat_, adv_) for n_ in ((50, 101, 150, 400) if ctx.quick else (50, 99, 100, 101, 150, 400, 1000)) for pat_ in ('heads', 'tails', 'alternate', 'first-third') for adv_ in (0, 3)]
+    pmap(big_partition, bigs, ctx, nshards=len(bigs))
     pmap(bfs, [(s, L if (s[0] <= 2 and s[1] <= 4) else L - 1 - (s[1] > 6), cap) for s in sh], ctx, nshards=len(sh))
 
 
 def replay(ctx, case):
+    if case.get('big_partition'):
+        return big_partition(ctx, tuple(case['big_partition']))
     shape = tuple(case['shape'])
     hist = []
     for h in case['history']:
